@@ -9,7 +9,7 @@
     (never a normal-looking value); the theorems show that it cannot happen from any reachable state.
 
     Definitions only; the proofs are in Proofs*.v. *)
-From Coq Require Import List Arith Bool.
+From Coq Require Import List Arith NArith Bool.
 Import ListNotations.
 
 (** result of a call: a value, a Rust panic, or "the model ran out of fuel" *)
@@ -124,17 +124,28 @@ Fixpoint fill (f : nat -> nat) (idx : list nat) (l : list nat) : res (list nat) 
   | i :: rest => l' <- set l i (f i) ;; fill f rest l'
   end.
 
-(** fn reset(&mut self, n): resize p with 0, p[i] = i for i in 0..n; resize sz with 0, sz[i] = 1 *)
+(** fn reset(&mut self, n): resize p with 0, p[i] = i for i in 0..n; resize sz with 0, sz[i] = 1
+    (the writes of a reset whose first [resize] got its buffer) *)
 Definition reset (s : dsu) (n : nat) : res dsu :=
   p' <- fill (fun i => i) (seq 0 n) (resize (p s) n 0) ;;
   sz' <- fill (fun _ => 1) (seq 0 n) (resize (sz s) n 0) ;;
   Ok (mk p' sz').
 
+(** The first statement of [reset], [self.p.resize(n, 0)], asks for a buffer of [n] elements of 8 bytes.  A request
+    of more than [isize::MAX] bytes (n >= 2^60, e.g. usize::MAX from an [n - 1] that wrapped) is refused with the
+    panic 'capacity overflow' before any allocation and BEFORE ANYTHING IS WRITTEN: the call panics and both vectors
+    are what they were.  The argument of [reset] is therefore a binary number (a usize), not an element count in
+    unary. *)
+Definition isize_max : N := 9223372036854775807%N.
+Definition alloc_overflow (n : N) : bool := (isize_max <? n * 8)%N.
+Definition reset_call (s : dsu) (n : N) : res dsu :=
+  if alloc_overflow n then Panic else reset s (N.to_nat n).
+
 (** #[derive(Clone)] *)
 Definition clone (s : dsu) : dsu := mk (p s) (sz s).
 
 (** One call on one DSU value and what it returned. *)
-Inductive op := Un (u v : nat) | Par (v : nat) | Check (u v : nat) | Size (v : nat) | Reset (n : nat).
+Inductive op := Un (u v : nat) | Par (v : nat) | Check (u v : nat) | Size (v : nat) | Reset (n : N).
 Inductive ret := RB (b : bool) | RN (k : nat) | RU.
 
 Definition step (s : dsu) (o : op) : res (dsu * ret) :=
@@ -143,14 +154,15 @@ Definition step (s : dsu) (o : op) : res (dsu * ret) :=
   | Par v => match par s v with Ok (s', r) => Ok (s', RN r) | Panic => Panic | Fuel => Fuel end
   | Check u v => match check s u v with Ok (s', b) => Ok (s', RB b) | Panic => Panic | Fuel => Fuel end
   | Size v => match size s v with Ok (s', k) => Ok (s', RN k) | Panic => Panic | Fuel => Fuel end
-  | Reset n => match reset s n with Ok s' => Ok (s', RU) | Panic => Panic | Fuel => Fuel end
+  | Reset n => match reset_call s n with Ok s' => Ok (s', RU) | Panic => Panic | Fuel => Fuel end
   end.
 
 (** What a call that panics leaves behind (a caller that catches the unwind keeps using the value).  From every
-    reachable state the only panic is the bounds check of the first access [self.p[v]] of a find whose argument
-    is out of range (c05_panic_iff_out_of_range); [un] and [check] have then already completed the find of
-    their first argument when that one is in range (its path is compressed), every other panicking call has
-    written nothing. *)
+    reachable state the only panics are the bounds check of the first access [self.p[v]] of a find whose argument
+    is out of range, and the refused buffer request of a [reset] (c05_panic_iff_out_of_range); [un] and [check]
+    have then already completed the find of their first argument when that one is in range (its path is
+    compressed), every other panicking call - a [reset] with [alloc_overflow n] in particular - has written
+    nothing. *)
 Definition panic_state (s : dsu) (o : op) : dsu :=
   match o with
   | Un u _ | Check u _ => match par s u with Ok (s1, _) => s1 | _ => s end
